@@ -54,3 +54,13 @@ C("C11", "TestC11", P(4000), P(20000, 16, 1500),
   level_text="Generated-input search over tables, stacks and object ids; results compared exactly with a filter over the reference model. " + BOUNDED,
   level_note="Trusts the generator's domain; the oracle is a three-line filter over the overlay model.",
   assumptions=[DOMAIN, "queried object ids have the table's hash size"])
+
+C("C07", "TestC07", P(500), P(4000, 16, 1500),
+  rule="rapid-generated histories of 5..40 steps on one directory: transactions over a conflict-free pool (creates, updates, deletes, symrefs, log appends, overwrites and deletions of existing log entries, limits [next,next] or wider, gaps), "
+       "CompactAll, AutoCompact, compaction of arbitrary contiguous ranges, reopen, a second read-only handle; auto-compaction after Add on/off; all write configurations; "
+       "oracle = map model compared with full ref and log scans of Merged() after every step and of a fresh handle; "
+       "non-trivial = a compaction of a range above older tables that still hold a key deleted by a tombstone in the range, or a compaction covering a log deletion; distinct = hash of the case JSON",
+  technique="stateful property-based testing (rapid): stack vs. map reference model after every step",
+  level_text="Generated histories against a reference model; every compaction must leave the full view unchanged (semantic tombstone rule). " + BOUNDED,
+  level_note="Single writer, no I/O faults; trusts nothing of the stack code; the model is a pair of maps.",
+  assumptions=[DOMAIN, "single process; transactions use update indices handed out by NextUpdateIndex()"])
